@@ -594,6 +594,10 @@ def run(case, ctx):
             # the copy of an instance whose pin the caller removed inherits the exemption
             for e in list(exempt):
                 exempt.add(f"{op[2]}_{e}")
+        if op[0] == "fill_blackbox" and op[2] == "self":
+            # ... and so does the copy made when the circuit is the implementation of one of its own instances
+            for e in list(exempt):
+                exempt.add(f"{op[1]}_{e}")
         snap = ref.snapshot(c)
         outcome = "ok" if exc is None else type(exc).__name__
         ctx.log(step, op[0], outcome, state_digest(c))
